@@ -19,7 +19,7 @@ theorem saveOps_eq (it : Int) (chunks : List Bytes) :
 theorem seg1_touches (it : Int) (chunks : List Bytes) :
     ∀ o ∈ seg1 it chunks, ∀ g, touches o g → g = .modelTmp it := by
   intro o ho g hg
-  simp only [seg1, List.mem_cons, List.mem_append, List.mem_map, List.mem_singleton, List.not_mem_nil,
+  simp only [seg1, List.mem_cons, List.mem_append, List.mem_map, List.not_mem_nil,
     or_false] at ho
   rcases ho with rfl | ⟨c, _, rfl⟩ | rfl
   · exact hg
